@@ -39,6 +39,30 @@ contract(FD + '::FiniteDifference._get_approx_data', ['C12'],
                    ('coefficients multiplied by the step', ('coeffs = fd_form.coeffs / step', 'coeffs = fd_form.coeffs * step'), 'post')])
 
 
+# step_calc='rel_element': one step PER ELEMENT of wrt (|x_e| * step, at least minimum_step); deltas and coefficients are
+# (points x elements) arrays and the consistency conditions hold element by element
+SUMK = lambda expr: 'sum(%s for j in range(len(result[1])))' % expr
+NE = '(1 if is_scalar(result[2]) else len(result[2]))'          # (wrt not local to this system: one scalar step)
+C0E = '(result[2] if is_scalar(result[2]) else result[2][e])'
+contract(FD + '::FiniteDifference._get_approx_data', ['C12'],
+         dict(self=Obj('FiniteDifference'), system=SYS_FD, wrt='x',
+              meta=DictT({'form': OneOf('forward', 'backward', 'central'), 'order': OneOf(1, 2),
+                          'step': Real(), 'step_calc': 'rel_element', 'minimum_step': Real()})),
+         requires=['meta["step"] > 0', 'meta["minimum_step"] > 0'],
+         raises_iff={'ValueError': "(meta['form'] == 'central') != (meta['order'] == 2)"},
+         ensures=['len(result[0]) == len(result[1])',
+                  'all(approx(%s + %s, 0) for e in range(%s))' % (C0E, SUMK('result[1][j, e]'), NE),
+                  'all(approx(%s, 1) for e in range(%s))' % (SUMK('result[1][j, e] * result[0][j, e]'), NE),
+                  "implies(meta['form'] == 'central', all(approx(%s, 0) for e in range(%s)))" % (SUMK('result[1][j, e] * result[0][j, e] * result[0][j, e]'), NE),
+                  'all(all(result[0][j, e] != 0 for e in range(%s)) for j in range(len(result[0])))' % NE],
+         modifies=[], inline={'_generate_fd_coeff'},
+         assumed={'system._outputs._contains_abs': Assumed(returns=Bool()), 'system._inputs._contains_abs': Assumed(returns=Bool()),
+                  'system._outputs._abs_get_val': Assumed(returns=Arr('m'), ensures=['len(result) >= 1']),
+                  'system._inputs._abs_get_val': Assumed(returns=Arr('m'), ensures=['len(result) >= 1'])},
+         name=FD + '::FiniteDifference._get_approx_data[rel_element]',
+         canaries=[('element steps below minimum_step are not raised to it', ('step[idx_zero] = minimum_step', 'pass'), 'post')])
+
+
 # ---------------------------------------------------------------------------------------------
 # side-effect freedom: after a sub-point the three vectors hold exactly the saved starting values
 def fd_self():
